@@ -67,7 +67,9 @@ func (sc *Scanner) TokenError(tok ast.Token, msg string) *Error { return &Error{
 
 func (sc *Scanner) readNext() int {
 	ch, err := sc.reader.ReadByte()
-	if err == io.EOF {
+	if err != nil {
+		// io.EOF or a failing reader: either way there is nothing more to scan (a reader that keeps
+		// failing must not look like an endless run of NUL bytes)
 		return EOF
 	}
 	return int(ch)
